@@ -166,8 +166,10 @@ def analyze(args):
             ps = pre.get(i, [])
             if len(ps) == 0:
                 out["findings"].append(dict(kind="rand_invented", text="optimised node %d (%s) has no randomising preimage" % (i, op_name(gO["nodes"][i]))))
-            elif len(ps) > 1 and op_name(gO["nodes"][i]) in ("Random", "RandomPermutation"):
-                out["findings"].append(dict(kind="rand_merged", text="Random nodes %s merged into optimised node %d" % (ps, i)))
+            elif len(ps) > 1:
+                # the property forbids merging for PRF evaluations as well (value-preserving for identical key/counter/type,
+                # but two masks the protocol treats as independent become one node)
+                out["findings"].append(dict(kind="rand_merged", text="%s nodes %s merged into optimised node %d" % (op_name(gO["nodes"][i]), ps, i)))
         for k, v in mapping.items():
             g, n = k.split(":")
             if int(g) == G["main"] and op_name(gG["nodes"][int(n)]) in RANDOMISING and op_name(gO["nodes"][v[1]]) not in RANDOMISING:
